@@ -24,6 +24,18 @@ class Boom(Exception):
     pass
 
 
+class Job:
+    """a custom stack item wrapping a generator / coroutine: its unwrap hook returns the wrapped object as a single item"""
+
+    def __init__(self, obj):
+        self.obj = obj
+
+
+@stackscope.unwrap_stackitem.register(Job)
+def _unwrap_job(job):
+    return job.obj
+
+
 class GroundTruthMismatch(Exception):
     """the real interpreter did not follow the specification's behaviour: the MODEL is wrong (exit 2)"""
 
@@ -73,7 +85,7 @@ class Env:
             return v
         return False
 
-    def nop(self):
+    def nop(self, *a):
         return None
 
     def sel(self):
@@ -93,11 +105,16 @@ class Env:
         return _trap()
 
     def mk(self, i):
-        if i % 4 == 2:
-            cls = AM2 if self.r.is_async[i] else M2      # aliased enter/exit methods
+        if i % 4 == 3:
+            m = make_gcm(self, i, self.r.shape[i], self.r.is_async[i])     # generator-based manager
         else:
-            cls = AM if self.r.is_async[i] else M
-        m = cls(self, i, self.r.shape[i])
+            if i % 4 == 2 and self.checker.mode not in ("referents", "trickfault"):
+                # aliased enter/exit methods; not in the fallback modes: the referents implementation recognises exit
+                # methods by their function name, a documented limitation outside C20's program space
+                cls = AM2 if self.r.is_async[i] else M2
+            else:
+                cls = AM if self.r.is_async[i] else M
+            m = cls(self, i, self.r.shape[i])
         self.by_id[id(m)] = i
         self.keep.append(m)
         return m
@@ -215,6 +232,77 @@ class AM2(AM):
 
     __aenter__ = _acome
     __aexit__ = _aleave
+
+
+def _gcm_enter(env, i):
+    ev = env.expect("enter", i)
+    env.inner_probe(ev, "enter", None)
+    return ev
+
+
+def _gcm_exit(env, i, raised):
+    ev = env.expect("exit", i, "raise" if raised else "other")
+    env.inner_probe(ev, "exit", None)
+
+
+def make_gcm(env, i, shape, is_async):
+    """a manager made by @contextmanager / @asynccontextmanager (the probes run inside the generator's frame,
+    underneath contextlib's own __enter__/__exit__ frames)"""
+    import contextlib
+    holder = []
+    if not is_async:
+        @contextlib.contextmanager
+        def g():
+            _gcm_enter(env, i)
+            if env.r.enter_raises[i]:
+                env.expect("enter_raised", i)
+                raise Boom()
+            env.expect("entered", i)
+            try:
+                yield build_value(shape, holder[0])
+            except BaseException:
+                _gcm_exit(env, i, True)
+                env.expect("exited", i)
+                if env.r.exit_raises[i]:
+                    raise Boom()
+                if i % 3 == 0:
+                    return
+                raise
+            _gcm_exit(env, i, False)
+            env.expect("exited", i)
+            if env.r.exit_raises[i]:
+                raise Boom()
+    else:
+        @contextlib.asynccontextmanager
+        async def g():
+            _gcm_enter(env, i)
+            if env.mse:
+                await env.trap()
+            if env.r.enter_raises[i]:
+                env.expect("enter_raised", i)
+                raise Boom()
+            env.expect("entered", i)
+            try:
+                yield build_value(shape, holder[0])
+            except BaseException:
+                _gcm_exit(env, i, True)
+                if env.mse:
+                    await env.trap()
+                env.expect("exited", i)
+                if env.r.exit_raises[i]:
+                    raise Boom()
+                if i % 3 == 0:
+                    return
+                raise
+            _gcm_exit(env, i, False)
+            if env.mse:
+                await env.trap()
+            env.expect("exited", i)
+            if env.r.exit_raises[i]:
+                raise Boom()
+    m = g()
+    holder.append(m)
+    return m
 
 
 # ------------------------------------------------------------------ comparison
@@ -458,6 +546,16 @@ def drive_suspended(fn, r, beh, carrier, checker, observe=True, mask=None, reps=
     transcript = []
     sends = 0
     try:
+        if observe and checker.mode == "purity":
+            # observe the target before it has started, directly and through a custom wrapper item
+            with warnings.catch_warnings(record=True):
+                warnings.simplefilter("always")
+                job = Job(obj)
+                a = stackscope.extract(obj)
+                b = stackscope.extract(job)
+                c = stackscope.extract(job)
+            if b != c or [f.pyframe for f in a.frames] != [f.pyframe for f in b.frames]:
+                checker.bad("extractions of the unstarted target differ")
         if carrier == "agen":
             aw = obj.asend(None)
         while True:
@@ -486,6 +584,12 @@ def drive_suspended(fn, r, beh, carrier, checker, observe=True, mask=None, reps=
                     stacks.append(checker.check_suspended(env, ev, obj, carrier))
                 if reps > 1 and stacks[0] is not None and any(s != stacks[0] for s in stacks[1:]):
                     checker.bad("two extractions of an unchanged target differ")
+                if checker.mode == "purity":
+                    with warnings.catch_warnings(record=True):
+                        warnings.simplefilter("always")
+                        viaw = stackscope.extract(Job(obj))
+                    if stacks[0] is not None and [f.pyframe for f in viaw.frames] != [f.pyframe for f in stacks[0].frames]:
+                        checker.bad("extraction through a wrapper item differs")
                 del stacks
             sends += 1
         env.finish()
@@ -588,13 +692,23 @@ def purity(fn, r, beh, carrier, checker):
     masks = [[True] * nsusp, [rng.random() < 0.5 for _ in range(nsusp)]]
     for mask in masks:
         reps = rng.choice([1, 2, 3])
-        tr, env = drive_suspended(fn, r, beh, carrier, checker, observe=True, mask=mask, reps=reps)
+        try:
+            tr, env = drive_suspended(fn, r, beh, carrier, checker, observe=True, mask=mask, reps=reps)
+        except GroundTruthMismatch as ex:
+            # the un-observed run followed the specification; only the extractions can have made this one diverge
+            checker.bad("the observed run no longer follows the program's behaviour (extraction perturbed the target): %s" % ex, mask=mask, reps=reps)
+            continue
         if tr != base or env.log != env0.log:
             checker.bad("observed run differs from the un-observed run", mask=mask, reps=reps)
         # nothing retained: managers die once the harness drops them
         refs = [weakref.ref(m) for m in env.keep]
         env.keep[:] = []
         env.by_id.clear()
+        # drop the harness's own references (targets of `as` clauses, the global the padded programs create managers through)
+        env.lst[:] = [None]
+        env.d.clear()
+        env.ns.__dict__.clear()
+        fn.__globals__["GMK"] = None
         del env, tr
         gc.collect()
         alive = sum(1 for w in refs if w() is not None)
